@@ -54,57 +54,88 @@ def run(ctx) -> None:
     ctx.not_decided.append("collision behaviour of hash() (the statement already excludes pairs such as -1/-2)")
 
 
+def _invalidation_events(it, X):
+    """events that clear X's fingerprint memo: X._invalidate_fp() or X._fp = None"""
+    from ..symx import NONE as SNONE
+    out = []
+    for e in it.events:
+        if e.kind == "call" and e.term[1] == ("attr", X, "_invalidate_fp"):
+            out.append(e)
+        elif e.kind == "store" and e.term == ("attr", X, "_fp") and e.value == SNONE:
+            out.append(e)
+    return out
+
+
+def _followed_by_invalidation(it, s_, X) -> Optional[str]:
+    """None if every path from event s_ to the exit passes an invalidation of X's memo; else why not"""
+    from ..symx import show
+    from .c08 import _compatible
+    from .c15 import _subset
+    inv = [i for i in _invalidation_events(it, X) if i.seq > s_.seq and _subset(i.conds, s_.conds) and i.loops == s_.loops]
+    if not inv:
+        return "no _invalidate_fp() (or `_fp = None`) follows on every path to the exit"
+    i = inv[0]
+    for e in it.events:
+        if e.kind in ("return", "raise") and s_.seq < e.seq < i.seq and _compatible(e.conds, s_.conds):
+            return f"`{e.kind} {show(e.term, it)[:30]}` (line {getattr(e.node, 'lineno', '?')}) can leave before the memo is cleared"
+    return None
+
+
 def _coherence(ctx) -> None:
+    """Every replacement of a vector's storage outside its constructor is followed, on every path, by the clearing of its memo -
+    on the symx event logs (helpers in line)."""
+    from ..sites2 import interp_of, standalone_interps
+    from ..symx import show
+    from .c15 import _swap_events
     prog = ctx.prog
-    swappers = {}
+    audited = ("vector.Vector.__setitem__", "vector.Vector._promote", "vector.Vector.__init__", "table.Table._replace_column")
+    promote_bare = False
     for q in ("vector.Vector.__setitem__", "vector.Vector._promote"):
         f = prog.func(q)
-        cfg = cfg_of(f)
+        it = interp_of(prog, f)
         unprotected = []
-        for snode, obj, val in storage_store_nodes(prog, f):
-            path = cfg.path_avoiding(snode, [cfg.exit], lambda m, obj=obj: _invalidates(m, obj))
-            if path is not None:
-                unprotected.append((snode, obj, path))
-        swappers[q] = unprotected
-        if q.endswith("__setitem__"):
-            ok = not unprotected
-            ctx.ob("a.vector-coherence", f, "store-then-invalidate", ok,
+        for s_, X, v in _swap_events(it):
+            if v is None:
+                continue
+            why = _followed_by_invalidation(it, s_, X)
+            if why:
+                unprotected.append((s_, why))
+        if q.endswith("_promote"):
+            promote_bare = bool(unprotected)
+        else:
+            ctx.ob("a.vector-coherence", f, "store-then-invalidate", not unprotected,
                    "the storage swap is followed by _invalidate_fp() on every path to exit",
-                   unprotected[0][0].ast if unprotected else f.node,
+                   unprotected[0][0].node if unprotected else f.node,
                    message="a write can leave a previously cached fingerprint in place: after `"
-                           + (unprotected[0][0].text() if unprotected else "") + "` the path "
-                           + (cfg.fmt_path(unprotected[0][2][:6]) if unprotected else "") + " reaches the exit without "
-                           "invalidating the memo")
-    # also: any OTHER function storing a Vector's storage outside constructors
+                           + (show(unprotected[0][0].term, it)[:50] if unprotected else "") + " = ...` "
+                           + (unprotected[0][1] if unprotected else ""))
+    # any OTHER function storing a Vector's storage outside constructors
     for g, node, val in _field_stores(prog, "_underlying"):
-        if g.qualname in ("vector.Vector.__setitem__", "vector.Vector._promote", "vector.Vector.__init__",
-                          "table.Table._replace_column"):
+        if g.qualname in audited:
             continue
+        from ..symx import baseline_functions
+        if g.qualname not in baseline_functions():
+            continue                      # a helper introduced later: its stores appear in line in the audited callers' logs
         ctx.ob("a.vector-coherence", g, "unexpected-store", False, "", node,
                message=f"{g.qualname} replaces storage outside the audited sites; its memo handling is unknown")
-    # _promote: compensated at every call site
+    # _promote: compensated at every call site (or invalidates by itself)
     f = prog.func("vector.Vector._promote")
-    if swappers["vector.Vector._promote"]:
+    if promote_bare:
         n_sites = 0
-        for g in prog.functions.values():
-            if isinstance(g.node, ast.Lambda):
+        for q, it in sorted(standalone_interps(prog).items()):
+            g = prog.functions.get(q)
+            if g is None:
                 continue
-            gcfg = cfg_of(g)
-            for c in prog.calls_in(g):
-                if isinstance(c.func, ast.Attribute) and c.func.attr == "_promote":
-                    n_sites += 1
-                    recv = short(c.func.value)
-                    node = gcfg.enclosing_stmt_node(prog, c)
-                    fresh = False
-                    if isinstance(c.func.value, ast.Name):
-                        defs = reaching_defs(gcfg, c.func.value.id, node)
-                        fresh = bool(defs) and all(_fresh_vector_expr(x) for x in defs)
-                    path = gcfg.path_avoiding(node, [gcfg.exit], lambda m, recv=recv: _invalidates(m, recv))
-                    ok = fresh or path is None
-                    ctx.ob("a.vector-coherence", g, f"promote-call:{recv}", ok,
-                           f"_promote on `{recv}`: " + ("fresh receiver (empty memo)" if fresh else "followed by invalidation on every path"),
-                           c, message=f"{g.qualname} promotes `{recv}` (storage swap without invalidation) and can reach the exit "
-                                      f"without clearing its memo: " + (gcfg.fmt_path(path[:6]) if path else ""))
+            for e in it.events:
+                if not (e.kind == "call" and e.term[1][0] == "attr" and e.term[1][2] == "_promote"):
+                    continue
+                n_sites += 1
+                X = e.term[1][1]
+                fresh = X[0] == "call" and ((X[1][0] == "attr" and X[1][2] == "copy") or X[1] in (("name", "Vector"), ("name", "Table")))
+                why = None if fresh else _followed_by_invalidation(it, e, X)
+                ctx.ob("a.vector-coherence", g, f"promote-call:{show(X, it)[:20]}", why is None,
+                       f"_promote on `{show(X, it)[:20]}`: " + ("fresh receiver (empty memo)" if fresh else "followed by invalidation on every path"),
+                       e.node, message=f"{g.qualname} promotes `{show(X, it)[:30]}` (storage swap without invalidation): {why}")
         if n_sites == 0:
             raise AnalysisError("_promote has no call site")
     else:
@@ -112,38 +143,46 @@ def _coherence(ctx) -> None:
 
 
 def _container(ctx) -> None:
+    """The fingerprint() a Table resolves to is a recomputation over its columns on every call: it neither reads nor writes a
+    memo on the table - on its symx event log."""
+    from ..sites2 import interp_of
+    from ..symx import show, subterms
     prog = ctx.prog
     fp = prog.method("Table", "fingerprint")
     if fp is None:
         raise AnalysisError("Table has no fingerprint() in its MRO")
-    reads = [n for n in walk_no_nested(fp.node) if isinstance(n, ast.Attribute) and n.attr in ("_fp",)
-             and isinstance(n.value, ast.Name) and n.value.id == "self"]
-    # memo through any other attribute written on self
-    stores = [n for n in walk_no_nested(fp.node) if isinstance(n, ast.Attribute) and isinstance(n.ctx, ast.Store)
-              and isinstance(n.value, ast.Name) and n.value.id == "self"]
+    it = interp_of(prog, fp)
+    SELF = ("param", fp.params[0])
     problems = []
     if fp.cls != "Table":
         problems.append(f"Table.fingerprint resolves to {fp.qualname}, which memoises in self._fp; a write through a live "
                         f"column view (t.a[0] = 99 -> Vector.__setitem__ on the column) passes through no statement that "
                         f"resets the table's memo")
-    if reads:
-        problems.append(f"{fp.qualname} reads the memo self._fp (line {reads[0].lineno}): the table is not told when a column "
-                        f"is written or replaced, so the memo can be stale")
-    if stores:
-        problems.append(f"{fp.qualname} stores `self.{stores[0].attr}`: a table-level cache of the fingerprint")
-    # it must be a recomputation over the columns
-    rets = [s for s in walk_stmts(fp.body) if isinstance(s, ast.Return)]
-    if fp.cls == "Table" and not any(isinstance(r.value, ast.Call) and attr_chain(r.value.func) == ["self", "_compute_fingerprint_full"]
-                                     for r in rets) and not any(isinstance(s, ast.For) for s in walk_stmts(fp.body)):
-        problems.append(f"{fp.qualname} does not recompute from the columns")
+    memo_fields = set()
+    for e in it.events:
+        terms = [e.term] + ([e.value] if e.value is not None else []) + [c for c, _ in e.conds]
+        for t in terms:
+            for x in subterms(t):
+                if x[0] == "attr" and x[1] == SELF and x[2] in ("_fp",):
+                    memo_fields.add((x[2], getattr(e.node, "lineno", "?")))
+        if e.kind == "store" and e.term[0] == "attr" and e.term[1] == SELF:
+            problems.append(f"{fp.qualname} stores `self.{e.term[2]}`: a table-level cache of the fingerprint")
+        if e.kind == "call" and e.term[1] in (("attr", ("name", "object"), "__setattr__"), ("name", "setattr")) and e.term[2][:1] == (SELF,):
+            problems.append(f"{fp.qualname} stores an attribute on the table (`{show(e.term, it)[:40]}`): a table-level cache")
+    if memo_fields:
+        fld, ln = sorted(memo_fields, key=str)[0]
+        problems.append(f"{fp.qualname} reads the memo self.{fld} (line {ln}): the table is not told when a column is written or "
+                        f"replaced, so the memo can be stale")
+    rets = [e for e in it.events if e.kind == "return" and e.depth == 0]
+    full = ("call", ("attr", SELF, "_compute_fingerprint_full"), (), ())
     if fp.cls == "Table":
-        # any conditional return of something other than the recomputation is a cache in disguise
-        for r in rets:
-            if not (isinstance(r.value, ast.Call) and attr_chain(r.value.func) == ["self", "_compute_fingerprint_full"]) \
-                    and not isinstance(r.value, ast.Name):
-                problems.append(f"{fp.qualname} may return `{short(r.value)}` instead of the recomputation")
+        for e in rets:
+            if e.term != full and e.term[0] != "after":
+                problems.append(f"{fp.qualname} may return `{show(e.term, it)[:40]}` instead of the recomputation over the columns")
+        if not rets or it.falls_through:
+            problems.append(f"{fp.qualname} does not recompute from the columns")
     ctx.ob("b.container", fp, "table-fingerprint", not problems, f"Table.fingerprint -> {fp.qualname}: recomputed on every call",
-           fp.node, message="; ".join(problems))
+           fp.node, message="; ".join(problems[:3]))
 
 
 def _fold_problems(it, L, acc_name, src_ok, hash_callees) -> List[str]:
